@@ -195,6 +195,27 @@ func c10Run(c *h.Ctx) {
 		}
 		return true
 	}
+	// double submission: the player whose move has just been accepted submits another wager action at once, before
+	// the resulting state has been published. The turn has passed on (or the round / hand has closed), so it must be
+	// refused whatever the updater goroutine has got round to.
+	mon.AfterAct = func(p *Play, e *h.Ev, gp int, pid, act string, err error) {
+		if c.Failed() || err != nil || !wagerActs[act] || p.R().Intn(3) != 0 {
+			return
+		}
+		second := []string{"fold", "check", "call", "allin", "bet", "raise", "pass"}[p.R().Intn(7)]
+		chips := int64(0)
+		if second == "bet" || second == "raise" {
+			chips = 10 + p.R().Int63n(60)
+		}
+		m.probes++
+		c.Count("refusal_probes", 1)
+		c.Feature("probe:double-submission:" + second)
+		if err2 := h.DoAction(p.SS.S.TE, pid, second, chips); err2 == nil {
+			mm := p.witness().(map[string]interface{})
+			mm["probe"] = fmt.Sprintf("%s: accepted %s, then at once %s %d", pid, act, second, chips)
+			c.Violate("C10/refusable-action-accepted/same-player-again/"+second, fmt.Sprintf("hand %d %s: %s's %s was accepted and the %s he submitted immediately afterwards (no turn of his in between) was accepted too", p.HandNo, e.T.State.GameState.Status.Round, pid, act, second), mm)
+		}
+	}
 	mon.OnEvent = func(p *Play, e *h.Ev) {
 		if c.Failed() {
 			return
@@ -331,7 +352,7 @@ func init() {
 			return map[string]int{"quick": 1000, "thorough": 18000}[tier]
 		},
 		RequiredFeatures: func(string) []string {
-			return []string{"probe:turn:preflop:participant:fold", "probe:turn:flop:asked-player-other-kind:pass", "probe:blinds-requested:participant:pay", "probe:ready-requested:stranger:ready", "probe:no-hand-running:between-hands:call", "probe:turn:preflop:not-dealt-in:check", "probe:turn:preflop:asked-player-other-kind:ready", "probe:table-paused-mid-hand", "probe:table-closed-mid-hand"}
+			return []string{"probe:turn:preflop:participant:fold", "probe:turn:flop:asked-player-other-kind:pass", "probe:blinds-requested:participant:pay", "probe:ready-requested:stranger:ready", "probe:no-hand-running:between-hands:call", "probe:turn:preflop:not-dealt-in:check", "probe:turn:preflop:asked-player-other-kind:ready", "probe:table-paused-mid-hand", "probe:table-closed-mid-hand", "probe:double-submission:fold", "probe:double-submission:call"}
 		},
 		CaseTimeout: 200e9,
 		Run:         c10Run,
